@@ -29,7 +29,7 @@ typedef struct qnode {
 	int dom;              // bottom-most serialising queue of the chain (serial/workloop/main), -1 none
 	int depth;
 	// oracle state
-	int running, running_barrier, dom_running, last_item, dom_last_item;
+	int running, running_barrier, dom_running, last_item, dom_last_item, width_running;
 	// suspension bookkeeping (C06)
 	int susp_ret_minus_res_call;   // D(t): suspends returned - resumes called
 	int activated_call;            // activate called (for initially inactive queues)
@@ -53,6 +53,7 @@ typedef struct qop {
 	int resume_after;    // suspend: number of following ops of the same list before the resumes
 	int onqueue;         // suspend issued from an item running on that queue
 	int arm_rel, arm_code; // workload-placed stall of the submitting thread inside this submission
+	int caller_tid;      // apply: simulated thread that called dispatch_apply
 } qop;
 
 typedef struct qitem {
@@ -63,6 +64,7 @@ typedef struct qitem {
 	qop *op;
 	uint64_t payload[3], cksum, result, result_ck;
 	int prev_on_queue;   // item that ended last on this serial queue when this one started
+	int holds_width;     // counts against the width of narrowed queues while it runs (see item_begin)
 	int dom;             // serialising bottom of the hierarchy its queue was in when it was submitted (-1 none, -2 unknown: submitted while the queue was being retargeted)
 } qitem;
 
